@@ -78,6 +78,9 @@ def _install():
             rec["qubit_map"] = [(str(k), int(v)) for k, v in qc.qubit_map.items()]
             return qc
         except BaseException as e:  # noqa
+            if type(e).__name__ == "_Timeout":
+                # the harness's own alarm (machine load): not an observation of the compiler
+                rec["unmodelled"] = "harness timeout inside compile()"
             rec["status"] = "raise"
             rec["exc"] = f"{type(e).__name__}: {e}"[:200]
             raise
